@@ -30,9 +30,9 @@ Print Assumptions C13_step2d_row.
         rejects any dependence on it) gives the same altitude / vertical-velocity functions. *)
 Theorem C13_step2d_ignores_old_row :
   forall dt lat lon alt VN VE VD C00 C01 C02 C10 C11 C12 C20 C21 C22 th0 th1 th2 dv0 dv1 dv2 : R,
-    kstep2d_fresh_alt dt lat lon alt VN VE VD C00 C01 C02 C10 C11 C12 C20 C21 C22 th0 th1 th2 dv0 dv1 dv2 =
+    c13_kstep2d_fresh_alt dt lat lon alt VN VE VD C00 C01 C02 C10 C11 C12 C20 C21 C22 th0 th1 th2 dv0 dv1 dv2 =
     step2d_alt dt lat lon alt VN VE VD C00 C01 C02 C10 C11 C12 C20 C21 C22 th0 th1 th2 dv0 dv1 dv2 /\
-    kstep2d_fresh_VD dt lat lon alt VN VE VD C00 C01 C02 C10 C11 C12 C20 C21 C22 th0 th1 th2 dv0 dv1 dv2 =
+    c13_kstep2d_fresh_VD dt lat lon alt VN VE VD C00 C01 C02 C10 C11 C12 C20 C21 C22 th0 th1 th2 dv0 dv1 dv2 =
     step2d_VD dt lat lon alt VN VE VD C00 C01 C02 C10 C11 C12 C20 C21 C22 th0 th1 th2 dv0 dv1 dv2.
 Proof. exact fresh2d_same. Qed.
 Print Assumptions C13_step2d_ignores_old_row.
